@@ -1,8 +1,9 @@
 """C02: rate limiter admits at most limit_for_period calls per window."""
 from ratelimiter_common import *
 PROP = "C02"
-RULE = ("random scripts, bursts of callers polled in random order at every millisecond, idle gaps; three window types, limits 1..4, timeouts from 0 to several periods, "
-        "arrivals exactly on window boundaries; non-trivial = some caller had to wait or was rejected")
+RULE = ("random scripts, bursts of callers polled in random order at every millisecond, idle gaps (fresh callers at one instant or spread), arrivals at exact multiples of the "
+        "period; three window types, limits 1..7 (and 5..130 with limit+1 simultaneous callers), periods incl. non-dyadic ones (sliding counter: only periods that pass the "
+        "bit-exact f64-vs-rational test counter_agrees), timeouts from 0 to ten periods; non-trivial = some caller had to wait or was rejected")
 
 
 def monitor(s, t):
@@ -18,38 +19,33 @@ def monitor(s, t):
             if adm[i + limit] - adm[i] < P:
                 return "sliding log: %d consecutive admissions at %s span less than the period %d" % (limit + 1, adm[i:i + limit + 1], P)
         return None
-    # fixed window / sliding counter: time (from the limiter's creation at 0) must be cuttable into
-    # consecutive windows, none shorter than the period, each holding at most `limit` admissions.
+    # fixed window / sliding counter: time must be cuttable into consecutive windows, none shorter than the
+    # period, each holding at most `limit` admissions. Weakest reading: the first window is everything before the
+    # first cut (an implementation may align its windows to anything, e.g. to the epoch).
     if not feasible(adm, limit, P):
         return "admissions at %s cannot be cut into consecutive windows >= %d ms with at most %d admissions each" % (adm, P, limit)
     return None
 
 
-def feasible(adm, limit, P):
-    """exact decision by dynamic programming. A solution can be normalised so that every cut is either
-    exactly P after the previous cut or sits at an admission instant (moving a cut to the right until one of
-    the two happens keeps the solution valid), so cuts of the form 0 + kP or a_j + kP suffice."""
-    if len(adm) <= limit:
-        return True
-    import functools
-    K = (adm[-1] // P) + 2
-    cands = sorted(set([k * P for k in range(K + 1)] + [a + k * P for a in adm for k in range(K + 1)]))
+def selftest(n=20000, seed=1):
+    """feasible() against brute force over all cut sets; returns the number of disagreements"""
+    import random
+    rng = random.Random(seed)
+    bad = 0
+    for _ in range(n):
+        P = rng.choice([3, 4, 5, 8, 10])
+        limit = rng.choice([1, 2, 3])
+        adm = sorted(rng.randrange(0, 5 * P) for _ in range(rng.randint(0, 7)))
+        arrived = None
+        if rng.random() < 0.5:
+            arrived = [(None if rng.random() < 0.6 else rng.randrange(max(0, a - 2 * P), a + 1)) for a in adm]
+        origin = rng.choice([None, None, 0])
+        if feasible_bruteforce(adm, limit, P, arrived, origin) != feasible(adm, limit, P, arrived, origin):
+            bad += 1
+    return bad
 
-    @functools.lru_cache(None)
-    def ok(idx, start):
-        # admissions adm[idx:] are all >= start; the current window starts at `start`
-        if len(adm) - idx <= limit:
-            return True          # the last window may be infinite
-        for c in cands:
-            if c < start + P:
-                continue
-            k = idx
-            while k < len(adm) and adm[k] < c:
-                k += 1
-            if k - idx > limit:
-                break            # later cuts only add admissions to this window
-            if ok(k, c):
-                return True
-        return False
 
-    return ok(0, 0)
+if __name__ == "__main__":
+    print("feasible vs brute force: %d disagreements" % selftest())
+    assert feasible([15, 17, 26], 1, 10) and feasible([4, 8, 8, 8, 10, 11], 3, 4)
+    assert not feasible([0, 0, 100, 100, 100, 100], 2, 100)
